@@ -5,25 +5,46 @@
 cd "$(dirname "$0")/.."
 names="$*"; [ -z "$names" ] && names=$(ls seeded | grep -E '^C[0-9]+-')
 for n in $names; do
-  id=${n%%-*}
+  owner=${n%%-*}
   [ -f seeded/$n/patch.diff ] || continue
-  out=$(tools/seedtest.sh $id seeded/$n/patch.diff quick 2>&1)
-  nviol=$(echo "$out" | grep -c '^VIOLATION')
-  nofail=$(echo "$out" | grep -c 'no-failing-input-found')
-  sum=$(echo "$out" | grep -E "^$id quick:" | tail -1)
-  if [ "$nviol" -gt 0 ] && [ "$nofail" -lt "$nviol" ]; then verdict="caught (concrete replay)";
-  elif [ "$nviol" -gt 0 ]; then verdict="caught (no-failing-input-found)";
-  else verdict="MISSED"; fi
-  first=$(echo "$out" | grep '^VIOLATION' | head -1 | sed 's/.*replay=//')
-  detail=""
-  [ -n "$first" ] && [ -f "${first%% *}" ] && detail=$(python3 -c "import json,sys;print(json.load(open(sys.argv[1])).get('detail','')[:300])" "${first%% *}" 2>/dev/null)
-  python3 - "seeded/$n/meta.json" "$verdict" "$sum" "$detail" <<'PY'
+  # every property anchored in a file the patch touches is run (the owner first)
+  ids=$(python3 - "$owner" "seeded/$n/patch.diff" <<'PY'
+import json,re,sys
+owner,patch=sys.argv[1],sys.argv[2]
+files=set(re.findall(r'^\+\+\+ b/(\S+)',open(patch).read(),re.M))
+ids=[owner]
+for l in open('properties.jsonl'):
+    p=json.loads(l)
+    if p['id']!=owner and files & set(p['anchors']['files']): ids.append(p['id'])
+print(' '.join(ids))
+PY
+)
+  verdict="MISSED"; sum=""; detail=""; by=""
+  for id in $ids; do
+    out=$(tools/seedtest.sh $id seeded/$n/patch.diff quick 2>&1)
+    nviol=$(echo "$out" | grep -c '^VIOLATION')
+    nofail=$(echo "$out" | grep -c 'no-failing-input-found')
+    s1=$(echo "$out" | grep -E "^$id quick:" | tail -1)
+    if [ "$nviol" -gt 0 ] && [ "$nofail" -lt "$nviol" ]; then v="caught (concrete replay)";
+    elif [ "$nviol" -gt 0 ]; then v="caught (no-failing-input-found)";
+    else v="MISSED"; fi
+    by="$by $id:${v%% *}"
+    if [ "$v" != "MISSED" ] && { [ "$verdict" = "MISSED" ] || { [ "$verdict" = "caught (no-failing-input-found)" ] && [ "$v" = "caught (concrete replay)" ]; }; }; then
+      verdict="$v"; sum="$s1"
+      first=$(echo "$out" | grep '^VIOLATION' | grep -v no-failing | head -1 | sed 's/.*replay=//')
+      [ -z "$first" ] && first=$(echo "$out" | grep '^VIOLATION' | head -1 | sed 's/.*replay=//')
+      [ -n "$first" ] && [ -f "${first%% *}" ] && detail=$(python3 -c "import json,sys;print(json.load(open(sys.argv[1])).get('detail','')[:300])" "${first%% *}" 2>/dev/null)
+    fi
+    [ -z "$sum" ] && sum="$s1"
+    [ "$verdict" = "caught (concrete replay)" ] && break
+  done
+  python3 - "seeded/$n/meta.json" "$verdict" "$sum" "$detail" "$by" <<'PY'
 import json,sys
 p=sys.argv[1]; m=json.load(open(p))
-m['check_result']={'verdict':sys.argv[2],'summary':sys.argv[3],'first_replay_detail':sys.argv[4]}
+m['check_result']={'verdict':sys.argv[2],'summary':sys.argv[3],'first_replay_detail':sys.argv[4],'checks_run':sys.argv[5].strip()}
 json.dump(m,open(p,'w'),indent=1)
 PY
-  echo "$n: $verdict :: $sum"
+  echo "$n: $verdict [$by ] :: $sum"
 done
 python3 - <<'PY'
 import json,glob,os
@@ -32,7 +53,7 @@ for d in sorted(glob.glob('seeded/C*-*')):
     try: m=json.load(open(d+'/meta.json'))
     except Exception: continue
     cr=m.get('check_result',{})
-    rows.append((os.path.basename(d), m.get('summary','').replace('\n',' ')[:160], m.get('needs','').replace('\n',' ')[:160], cr.get('verdict','not run'), cr.get('first_replay_detail','').replace('\n',' ').replace('|','/')[:200]))
+    rows.append((os.path.basename(d), m.get('summary','').replace('\n',' ').replace('|','/')[:160], m.get('needs','').replace('\n',' ').replace('|','/')[:160], cr.get('verdict','not run')+' ['+cr.get('checks_run','')+']', cr.get('first_replay_detail','').replace('\n',' ').replace('|','/')[:200]))
 with open('seeded/RESULTS.md','w') as f:
     f.write("# Seeded changes vs. checks\n\nEach change was written by an independent sub-agent that saw only the property text and a scratch worktree; it compiles, passes the existing 380 tests, and breaks the property (demo_test.go fails with it, passes without). `tools/seedall.sh` runs `./check <id> quick` against a scratch worktree with the patch applied.\n\n| seed | change | needs | verdict | first replay |\n|---|---|---|---|---|\n")
     for r in rows: f.write("| %s | %s | %s | %s | %s |\n"%r)
